@@ -10,20 +10,21 @@ BEHAVIOURS = ["newer", "same", "older_subsecond", "older", "uptodate", "error", 
 # further server behaviours, used in the extra histories (not in the full product, to keep it small): a newer profile
 # sent as an OFXv1 file in Windows-1252 with a non-ASCII institution name, and a newer profile whose date lies ahead of
 # the client's clock (server clock ahead / far future)
-EXTRA = ["newer_cp1252", "newer_future"]
+EXTRA = ["newer_cp1252", "newer_future", "newer_sonrs_date"]
 T0 = datetime.datetime(2022, 6, 1, 12, 0, 0, 500000, tzinfo=datetime.timezone.utc)
 _cache = {}
 
 
-def profile_bytes(dt, code=0, url="https://ofx.example.com/ofx", finame="Bank", version=203, charset=None):
-    key = (dt, code, url, finame, version, charset)
+def profile_bytes(dt, code=0, url="https://ofx.example.com/ofx", finame="Bank", version=203, charset=None, sonrs_dtprofup=None):
+    key = (dt, code, url, finame, version, charset, sonrs_dtprofup)
     if key in _cache:
         return _cache[key]
     from ofxtools import models
     from ofxtools.models.common import MSGSETCORE
     from ofxtools.header import make_header
     from ofxtools.utils import UTC
-    sonrs = models.SONRS(status=models.STATUS(code=0, severity="INFO"), dtserver=datetime.datetime(2020, 1, 1, tzinfo=UTC), language="ENG")
+    skw = {"dtprofup": sonrs_dtprofup} if sonrs_dtprofup is not None else {}       # the sign-on response may carry a profile date of its own
+    sonrs = models.SONRS(status=models.STATUS(code=0, severity="INFO"), dtserver=datetime.datetime(2020, 1, 1, tzinfo=UTC), language="ENG", **skw)
     kw = {}
     if dt is not None:
         core = MSGSETCORE("ENG", ver=1, url=url, ofxsec="NONE", transpsec=True, signonrealm="R",
@@ -88,6 +89,11 @@ def run_history(it, fn, a):
             elif b == "newer_cp1252":
                 clock = max(clock, base) + datetime.timedelta(days=1, milliseconds=250)
                 resp_dt = clock; resp = profile_bytes(resp_dt, finame="Caf\u00e9 Bank \u20ac", charset="1252")
+            elif b == "newer_sonrs_date":
+                # the sign-on response carries its own (optional) DTPROFUP, years later than the profile's: the date of the
+                # profile held is the PROFRS one
+                clock = max(clock, base) + datetime.timedelta(days=1, milliseconds=250)
+                resp_dt = clock; resp = profile_bytes(resp_dt, sonrs_dtprofup=datetime.datetime(2033, 5, 5, tzinfo=datetime.timezone.utc))
             elif b == "newer_future":
                 clock = max(clock, base, datetime.datetime(2035, 1, 1, 6, 0, 0, 250000, tzinfo=datetime.timezone.utc)) + datetime.timedelta(days=1)
                 resp_dt = clock; resp = profile_bytes(resp_dt)
@@ -121,7 +127,7 @@ def run_history(it, fn, a):
                 want = held_dt if held is not None else datetime.datetime(1990, 1, 1, tzinfo=datetime.timezone.utc)
                 if asked != want:
                     problems.append(f"step {i} {b}: asked with {asked}, held {want}")
-            accept_new = b in ("newer", "same", "newer_cp1252", "newer_future") or (held is None and b in ("older_subsecond", "older"))
+            accept_new = b in ("newer", "same", "newer_cp1252", "newer_future", "newer_sonrs_date") or (held is None and b in ("older_subsecond", "older"))
             if accept_new:
                 if not ok or out != resp:
                     problems.append(f"step {i} {b}: expected the new profile, got {out!r:.80}")
